@@ -46,7 +46,7 @@ type expect struct {
 type step struct {
 	Op        string   `json:"op"` // run | restart
 	D         int      `json:"d"`
-	RF        string   `json:"rf"`    // none | tombCorrupt | tombUnreadable | stateCorrupt
+	RF        string   `json:"rf"`    // none | tombCorrupt | tombUnreadable | stateCorrupt (restart: none | tombUnreadable)
 	Fetch     string   `json:"fetch"` // answer | empty | servfail | drop | none (run ends before the fetch)
 	Z         *zonePub `json:"z"`
 	TombFail  bool     `json:"tombFail"`
@@ -328,10 +328,58 @@ func (r *runner) replay(b *behaviour, base string) {
 		}
 		st := &b.Steps[si]
 		if st.Op == "restart" {
+			// NewResolver on what the previous process left behind.  rf = tombUnreadable:
+			// open() of the tombstone file fails while the process starts, and works again
+			// when its start-up run begins.
+			rf := st.RF
+			if rf == "" {
+				rf = "none"
+			}
+			o.statePre, o.tombPre = e.observeState(), e.observeTomb()
+			var unr *unreadable
+			if rf == "tombUnreadable" {
+				if fi, err := os.Lstat(e.tombPath()); err == nil && fi.Mode().IsRegular() {
+					unr = makeUnreadable(e.tombPath(), keep)
+				} else {
+					r.drift("behaviour %s step %d: tombstone file absent, cannot be made unreadable", b.ID, si)
+					drifted = true
+				}
+			}
 			e.boot()
+			unr.restore()
 			down = false
-			labels = append(labels, "restart")
-			r.emit(&traceEvent{Ev: "restart", Crash: -1, Trusted: e.trusted(), State: e.observeState(), Tomb: e.observeTomb()})
+			labels = append(labels, "restart(rf="+rf+")")
+			booted := e.trusted()
+			r.emit(&traceEvent{Ev: "restart", RF: rf, Crash: -1, Trusted: booted, State: e.observeState(), Tomb: e.observeTomb()})
+			r.count("restarts", 1)
+			r.res.Case(strings.Join(labels, ";"))
+			// RevokedNeverAgain, "not after restarts ... configuration that still lists it": what
+			// NewResolver publishes is the live trust set until the first AutoTA run publishes
+			// (after middleware.Ready and checkPriming's round trips), and validation uses it.
+			if len(o.revAcc) > 0 {
+				r.count("restarts_with_recorded_revocation", 1)
+			}
+			for _, k := range booted {
+				if o.revAcc[k] {
+					// the defect judged here is "the disk records the revocation and NewResolver does
+					// not look"; a revocation the code never recorded (tag carry, masked by a
+					// collision: Hyp_H2/H3) keeps its own classification
+					cause := "restart-window"
+					if !has(o.tombPre.S, k) && o.statePre.M[k].St != "Revoked" {
+						cause = "revocation-ignored/at-restart"
+					}
+					r.violate(b, si, "RevokedNeverAgain", cause, fmt.Sprintf(
+						"%s is in the live trust set of the restarted process (rootKeys=%v) although its self-signed revocation was "+
+							"accepted and recorded (tombstones on disk %v, state file %s); it stays there until the first AutoTA run publishes",
+						k, booted, o.tombPre.S, mustJSON(o.statePre)))
+				}
+			}
+			// drift: the start-up set the specification predicts (BootCandidate; nothing if the
+			// store cannot be read)
+			if st.Exp != nil && !drifted && !sameList(booted, st.Exp.Trusted) {
+				drifted = true
+				r.drift("behaviour %s step %d (restart rf=%s): rootKeys %v, model %v", b.ID, si, rf, booted, st.Exp.Trusted)
+			}
 			continue
 		}
 		if down {
@@ -700,6 +748,20 @@ func (r *runner) replay(b *behaviour, base string) {
 			if len(trustedAfter) != 0 {
 				r.violate(b, si, "FailClosed", "corrupt-tombstones", fmt.Sprintf(
 					"the tombstone store was undecodable but rootKeys=%v (before: %v)", trustedAfter, trustedBefore))
+			}
+		}
+		// FailClosed (c): the tombstone store exists but could not be opened.  What it holds is
+		// unknowable to the run, so the outcome may not depend on it: no trust, and the store
+		// the run could not read is not replaced.
+		if unr != nil {
+			r.count("failclosed_unreadable_tombstones", 1)
+			if len(trustedAfter) != 0 {
+				r.violate(b, si, "FailClosed", "unreadable-tombstones", fmt.Sprintf(
+					"the tombstone store could not be opened (ELOOP) but rootKeys=%v instead of failing closed (before: %v; store held %v, "+
+						"after the run it holds %v, files replaced %v)", trustedAfter, trustedBefore, o.tombPre.S, tombAfter.S, tl.Replaced))
+			} else if tl.TombLanded {
+				// not a clause of the statement by itself (a later republication would be)
+				r.drift("behaviour %s step %d: the unreadable tombstone store was replaced: it held %v, now %v", b.ID, si, o.tombPre.S, tombAfter.S)
 			}
 		}
 		for k := range o.earned {
